@@ -37,6 +37,8 @@ def get_engine(name):
         from .engines import threads as e
     elif name == "P":
         from .engines import process as e
+    elif name == "G":
+        from .engines import genhist as e
     else:
         raise ValueError(name)
     return e
